@@ -992,6 +992,58 @@ fn run_helper_case(ctx: &Ctx, w: &mut RWorld, hc: (u8, u8, u8)) -> u64 {
     2
 }
 
+/// Several messages in one transaction (`execute_multi`): every message reaches its module in
+/// order, and a module that refuses the last one aborts the whole transaction - what the earlier
+/// messages (a contract call that writes, a bank transfer) did is gone.
+fn run_multi_case(ctx: &Ctx, w: &mut RWorld, kind: &'static str, fail: bool) -> u64 {
+    *w.app.storage_mut() = w.genesis.clone();
+    LOG.with(|l| l.borrow_mut().clear());
+    let module = module_of(kind);
+    let bit = if is_wasm(kind) { 1u32 << 7 } else { 1u32 << MODS.iter().position(|m| *m == module).unwrap() };
+    FAIL.with(|f| *f.borrow_mut() = if fail { bit } else { 0 });
+    SCRIPT.with(|s| *s.borrow_mut() = Script { kind: kind.into(), callee: w.callee.clone(), recipient: w.recipient.clone(), next: w.typed.clone(), ..Script::default() });
+    let user = Addr::unchecked(&w.user);
+    let before = w.app.storage().data.clone();
+    let first: CosmosMsg<MyMsg> = WasmMsg::Execute { contract_addr: w.callee.clone(), msg: to_json_binary(&Cmd { script: 6 }).unwrap(), funds: vec![] }.into();
+    let second: CosmosMsg<MyMsg> = BankMsg::Send { to_address: w.callee.clone(), amount: vec![coin(2, "x")] }.into();
+    let third = msg_of::<MyMsg>(kind, Some(MyMsg::Ping { n: 7 }), &w.callee, &w.recipient);
+    let res = catch(|| w.app.execute_multi(user.clone(), vec![first, second, third]));
+    FAIL.with(|f| *f.borrow_mut() = 0);
+    let logv: Vec<Rec> = LOG.with(|l| std::mem::take(&mut *l.borrow_mut()));
+    let cj = json!({"engine": "route", "multi": true, "message_kind": kind, "third_message_module_fails": fail, "messages": ["wasm execute (callee writes)", "bank send 2x to the callee", format!("the {} message", kind)]});
+    let res = match res {
+        Ok(r) => r,
+        Err(p) => {
+            ctx.violation("c17:panic:execute_multi", json!({"case": cj, "panic": p}));
+            return 1;
+        }
+    };
+    // bank with a failing bank module: the second message is refused already
+    let bank_fails = fail && module == "bank";
+    let want_ok = !fail;
+    if res.is_ok() != want_ok {
+        ctx.violation(&format!("c17:outcome:{}", if want_ok { "module-success-not-seen" } else { "module-failure-not-seen" }), json!({"case": cj, "result": res.as_ref().map(|_| "Ok").map_err(|e| format!("{:#}", e))}));
+    }
+    if !want_ok && w.app.storage().data != before {
+        ctx.violation("c17:failed-module-left-state", json!({"case": cj, "detail": "the transaction failed but earlier messages of it left their effects"}));
+    }
+    if want_ok {
+        let has = w.app.contract_storage(&Addr::unchecked(&w.callee)).get(b"late-write").is_some();
+        if !has {
+            ctx.violation("c17:surrounding-effects-lost", json!({"case": cj}));
+        }
+    }
+    // the third message reached its module exactly once (unless the bank refused the second)
+    if !is_wasm(kind) && !bank_fails {
+        let want = Rec { module, op: op_of(kind), sender: w.user.clone(), payload: payload_of(kind, &w.callee, &w.recipient) };
+        let got: Vec<&Rec> = logv.iter().filter(|r| **r == want).collect();
+        if got.len() != 1 {
+            ctx.violation(&format!("c17:routing:{}", kind), json!({"case": cj, "expected_exactly_one_record": format!("{:?}", want), "all_records": logv.iter().map(|r| format!("{:?}", r)).collect::<Vec<_>>()}));
+        }
+    }
+    3
+}
+
 fn cases(tier: Tier) -> Vec<Case> {
     let mut v = vec![];
     let masks: Vec<u32> = match tier {
@@ -1057,10 +1109,26 @@ pub fn run_c17(ctx: &Ctx) -> i32 {
         let mut w = world();
         hcs.iter().map(|h| run_helper_case(ctx, &mut w, *h)).sum()
     };
-    let n = cs.len() + qcases.len() + stock as usize + hcs.len();
+    let mut multi_cases = 0usize;
+    let multi_evals: u64 = {
+        let mut w = world();
+        let mut n = 0;
+        for kind in KINDS {
+            if kind == "wasm-funded" || kind == "wasm-zero-funds" {
+                continue;
+            }
+            for fail in [false, true] {
+                n += run_multi_case(ctx, &mut w, kind, fail);
+                multi_cases += 1;
+            }
+        }
+        n
+    };
+    let n = cs.len() + qcases.len() + stock as usize + hcs.len() + multi_cases;
     let coverage = json!({
         "states": n,
-        "transitions": evals + qevals + stock + helper_evals,
+        "transitions": evals + qevals + stock + helper_evals + multi_evals,
+        "execute_multi_cases": multi_cases,
         "traces_validated_against_impl": n,
         "evaluations": evals + qevals + stock + helper_evals,
         "executor_helper_cases": hcs.len(),
@@ -1083,6 +1151,11 @@ pub fn run_c17(ctx: &Ctx) -> i32 {
 pub fn replay_c17(ctx: &Ctx, case: &Value) {
     let c = &case["case"];
     let mut w = world();
+    if c["multi"].as_bool() == Some(true) {
+        let kind: &'static str = KINDS.iter().find(|k| Some(**k) == c["message_kind"].as_str()).copied().unwrap_or("bank");
+        run_multi_case(ctx, &mut w, kind, c["third_message_module_fails"].as_bool().unwrap_or(false));
+        return;
+    }
     if c["helper"].is_string() {
         run_helper_case(ctx, &mut w, (c["helper_code"].as_u64().unwrap_or(0) as u8, c["funds_code"].as_u64().unwrap_or(0) as u8, c["admin_code"].as_u64().unwrap_or(0) as u8));
         return;
